@@ -77,7 +77,14 @@ class FastHierarchyAnalyzer(HierarchyAnalyzerBase):
                 continue
 
             is_all_permanent = all([node in permanent_nodes for node in choice_constraint.nodes])
-            n_opts[i_choices[0]] = count_n_combinations_max(choice_constraint, is_all_permanent=is_all_permanent)
+            n_comb_max = count_n_combinations_max(choice_constraint, is_all_permanent=is_all_permanent)
+
+            # If the choices are not all permanent they might never be active together: a constraint that cannot be
+            # satisfied by all of them at once then does not mean that there are no feasible architectures
+            if n_comb_max == 0 and not is_all_permanent:
+                continue
+
+            n_opts[i_choices[0]] = n_comb_max
             for i_other in i_choices[1:]:
                 n_opts[i_other] = 1
 
